@@ -5,7 +5,7 @@ use super::image::*;
 use super::Pe;
 
 pub(crate) fn try_from<'a, P: Pe<'a>>(pe: P) -> Result<BaseRelocs<'a>> {
-	let datadir = pe.data_directory().get(IMAGE_DIRECTORY_ENTRY_BASERELOC).ok_or(Error::Bounds)?;
+	let datadir = pe.data_directory().get(IMAGE_DIRECTORY_ENTRY_BASERELOC).ok_or(Error::Null)?;
 	let relocs = pe.slice(datadir.VirtualAddress, datadir.Size as usize, 4)?; // $1
 	let relocs = unsafe { relocs.get_unchecked(..datadir.Size as usize) };
 	Ok(unsafe { BaseRelocs::new(relocs) })
